@@ -470,7 +470,8 @@ func (n *Tree[V]) Find(path string, matcher LookupMatcher[V]) (*Entry[V], error)
 
 	for i, param := range params {
 		key := found.wildcardKeys[i]
-		if key != "*" {
+		// wildcards without a name (":*", "**", but also a bare ":" or "*") are not exposed
+		if key != "*" && len(key) != 0 {
 			entry.Parameters[key] = param
 		}
 	}
